@@ -1,12 +1,14 @@
 import WacModel.Parser
 import WacModel.AstJson
 import WacProofs.Lemmas.LexSpans
+import WacProofs.Lemmas.ParserBasic
+import WacProofs.Lemmas.LexAscii
 /-
   Every diagnostic of the parser model points inside the source, on character boundaries
   (induction over the parse functions with an invariant on the lexer state).
 -/
 namespace Wac.Lemmas.ParseSpans
-open Wac Wac.Lex Wac.Parse Wac.Ast Wac.Lemmas Wac.Lemmas.LexSpans
+open Wac Wac.Lex Wac.Parse Wac.Ast Wac.Lemmas Wac.Lemmas.LexSpans Wac.Lemmas.LexAscii
 
 /-- `sp` is the byte range of some sub-list of `src` -/
 def GoodSpan (src : Str) (sp : Span) : Prop := ∃ text, Slice src sp text
@@ -17,14 +19,15 @@ structure Inv (src : Str) (st : PState) : Prop where
   len_eq : st.srcLen = utf8Len src
   toks : ∀ t ∈ st.toks, Slice src t.span t.text
   last : st.lastEnd = st.srcLen ∨ GoodSpan src ⟨st.lastStart, st.lastEnd - st.lastStart⟩
+  pkg : ∀ t ∈ st.toks, PkgOk t
 
 /-- the span carried by a diagnostic is good -/
 def GoodErr (src : Str) (e : ParseError) : Prop :=
   match e with
   | .Lexer _ s | .Expected _ _ s | .ExpectedEither _ _ _ s | .ExpectedMultiple _ _ _ s
   | .EmptyType _ _ s => GoodSpan src s
-  | .InvalidVersion _ s => s.offset + s.len ≤ utf8Len src
-  | .Panic _ => True
+  | .InvalidVersion _ s => GoodSpan src s
+  | .Panic _ => False
   | .OutOfFuel => True
 
 theorem charAt_good (b : Nat) : ∀ (s : Str) (pos : Nat) (pre : Str), pos = utf8Len pre →
@@ -73,13 +76,14 @@ theorem next_inv {src st} (hi : Inv src st) : Inv src st.next.2 := by
   cases hts : st.toks with
   | nil =>
     obtain ⟨_, h2, h3, h4, h5⟩ := next_nil hts
-    exact ⟨by rw [h3]; exact hi.src_eq, by rw [h4]; exact hi.len_eq, by simp [h2], Or.inl (by rw [h5, h4])⟩
+    exact ⟨by rw [h3]; exact hi.src_eq, by rw [h4]; exact hi.len_eq, by simp [h2], Or.inl (by rw [h5, h4]), by simp [h2]⟩
   | cons t r =>
     obtain ⟨h1, h2, h3, h4, h5, _⟩ := next_cons hts
     have ht : GoodSpan src t.span := ⟨_, hi.toks t (by simp [hts])⟩
-    refine ⟨by rw [h2]; exact hi.src_eq, by rw [h3]; exact hi.len_eq, ?_, Or.inr ?_⟩
+    refine ⟨by rw [h2]; exact hi.src_eq, by rw [h3]; exact hi.len_eq, ?_, Or.inr ?_, ?_⟩
     · intro t' h'; rw [h1] at h'; exact hi.toks t' (by simp [hts, h'])
     · rw [h4, h5]; simpa using ht
+    · intro t' h'; rw [h1] at h'; exact hi.pkg t' (by simp [hts, h'])
 
 theorem next_tok {src st t} (hi : Inv src st) (h : st.next.1 = some t) : Slice src t.span t.text := by
   cases hts : st.toks with
@@ -111,20 +115,20 @@ theorem good_bind {α β : Type} {src : Str} {x : Except ParseError (α × PStat
   | error e => exact hx
   | ok p => exact hf p rfl hx
 
-theorem lookaheadError_good {src st} (hi : Inv src st) (attempts : List Token) :
+theorem lookaheadError_good {src st} (hi : Inv src st) (attempts : List Token) (hne : attempts ≠ []) :
     GoodErr src (lookaheadError st attempts) := by
   unfold lookaheadError
   have hsp := span_good hi
   cases hp : st.peek with
   | none =>
     simp only []
-    split <;> simp [GoodErr, hsp]
+    split <;> simp_all [GoodErr]
   | some t =>
     have ht : GoodSpan src t.span := ⟨_, hi.toks t (by
       simp [PState.peek] at hp; exact List.mem_of_mem_head? hp)⟩
     simp only []
     cases t.res with
-    | ok k => simp only []; split <;> simp [GoodErr, ht]
+    | ok k => simp only []; split <;> simp_all [GoodErr]
     | error e => simp [GoodErr, ht]
 
 theorem good_parseToken {src st} (hi : Inv src st) (k : Token) : Good src (parseToken st k) := by
@@ -187,7 +191,7 @@ theorem good_parseDelimited {α : Type} {src} (stop : Token) (commas : Bool) (pe
     split
     · exact good_ok hi
     · split
-      · exact good_err (lookaheadError_good hi _)
+      · exact good_err (lookaheadError_good hi _ (by simp))
       · have h1 := hitem st hi
         cases hit : item st with
         | error e => rw [hit] at h1; exact good_err h1
@@ -214,11 +218,13 @@ theorem good_parseDelimited {α : Type} {src} (stop : Token) (commas : Bool) (pe
                 cases hr : parseDelimited stop commas peeks item fuel st1 with
                 | error e => rw [hr] at h3; exact good_err h3
                 | ok q2 => rw [hr] at h3; obtain ⟨xs, st3⟩ := q2; exact good_ok h3
-          · exact good_err (lookaheadError_good h1 _)
+          · exact good_err (lookaheadError_good h1 _ (by simp))
 
-/-- the token returned by a successful `parse_token` is a slice of the source -/
+/-- the token returned by a successful `parse_token` is a slice of the source, and a package token
+consists of name characters (with a `/` in a package path) -/
 theorem parseToken_slice {src st k t st'} (hi : Inv src st) (h : parseToken st k = .ok (t, st')) :
-    Slice src t.span t.text := by
+    Slice src t.span t.text ∧
+    (isPkgKind k = true → (∀ c ∈ t.text, nameChar c = true) ∧ (k = .PackagePath → '/' ∈ t.text)) := by
   unfold parseToken at h
   cases hts : st.toks with
   | nil =>
@@ -226,7 +232,7 @@ theorem parseToken_slice {src st k t st'} (hi : Inv src st) (h : parseToken st k
     rw [show st.next = (st.next.1, st.next.2) from rfl, h1] at h
     simp at h
   | cons t0 r =>
-    obtain ⟨_, _, _, _, _, t', h1, _⟩ := next_cons hts
+    obtain ⟨_, _, _, _, _, t', h1, _, htx, _, hres⟩ := next_cons hts
     have ht := next_tok hi h1
     rw [show st.next = (st.next.1, st.next.2) from rfl, h1] at h
     simp only [] at h
@@ -235,7 +241,13 @@ theorem parseToken_slice {src st k t st'} (hi : Inv src st) (h : parseToken st k
     | ok found =>
       simp only [hr] at h
       split at h
-      · simp at h; rw [← h.1]; exact ht
+      · rename_i hfk
+        simp at h
+        rw [← h.1]
+        refine ⟨ht, fun hk => ?_⟩
+        have := hi.pkg t0 (by simp [hts]) found (hres found hr) (by rw [hfk]; exact hk)
+        rw [htx, hfk] at *
+        exact this
       · simp at h
 
 theorem good_bind_pure {α β : Type} {src : Str} {x : Except ParseError α}
@@ -254,7 +266,12 @@ theorem findIdx_lt {s : Str} {c : Char} {i : Nat} (h : findIdx s c = some i) : i
   simp only [findIdx] at h
   split at h <;> simp_all
 
-theorem parseVersionAt_err {src s span at? e} (hs : Slice src span s)
+theorem take_drop_mem {s : Str} {n : Nat} {c : Char} (h : c ∈ s.take n ∨ c ∈ s.drop n) : c ∈ s := by
+  rcases h with h | h
+  · exact List.mem_of_mem_take h
+  · exact List.mem_of_mem_drop h
+
+theorem parseVersionAt_err {src s span at? e} (hs : Slice src span s) (hall : ∀ c ∈ s, nameChar c = true)
     (h : parseVersionAt s span at? = .error e) (hat : ∀ i, at? = some i → i < s.length) : GoodErr src e := by
   unfold parseVersionAt at h
   split at h
@@ -265,17 +282,49 @@ theorem parseVersionAt_err {src s span at? e} (hs : Slice src span s)
     · simp at h
     · simp at h
       subst h
-      have hb := hs.in_bounds
       have hi := hat i rfl
-      have hl := length_le_utf8Len s
-      obtain ⟨pre, post, _, _, h2⟩ := hs
+      obtain ⟨pre, post, hsrc, h1, h2⟩ := hs
+      have htake : utf8Len (s.take (i + 1)) = i + 1 := by
+        rw [utf8Len_ascii (fun c hc => hall c (List.mem_of_mem_take hc))]
+        simp; omega
+      have hsplit := utf8Len_take_drop (i + 1) s
       simp only [GoodErr]
-      omega
+      refine ⟨s.drop (i + 1), pre ++ s.take (i + 1), post, ?_, ?_, ?_⟩
+      · rw [hsrc]; simp [List.append_assoc]
+      · simp [h1, htake]; omega
+      · simp only [h1, h2]; omega
 
 theorem next_inv' {src st o st'} (hi : Inv src st) (h : st.next = (o, st')) : Inv src st' := by
   have := next_inv hi
   rw [h] at this
   exact this
+
+/-- `next()` cannot return `None` when a token was just peeked -/
+theorem next_none_contra {st : PState} {st' : PState} {k : Token}
+    (h : st.next = (none, st')) (hp : peekTok st = some k) : False := by
+  cases hts : st.toks with
+  | nil => simp [peekTok, PState.peek, hts] at hp
+  | cons t r =>
+    obtain ⟨_, _, _, _, _, t', h1, _⟩ := next_cons hts
+    rw [h] at h1
+    simp at h1
+
+/-- the `assert!(!types.is_empty())` of `Type::parse` cannot fail after its lookahead -/
+theorem tuple_assert_contra {st st' : PState} {item : PState → Except ParseError (Ty × PState)} {fuel : Nat}
+    {types : List Ty}
+    (hp : ¬(!peekIn st typePeeks) = true)
+    (h : parseDelimited .CloseAngle true typePeeks item fuel st = .ok (types, st'))
+    (he : types.isEmpty = true) : False := by
+  have hs : peekIs st .CloseAngle = false := by
+    simp only [peekIn, peekIs] at hp ⊢
+    cases hk : peekTok st with
+    | none => simp
+    | some k =>
+      simp only [hk] at hp
+      have hc : typePeeks.contains k = true := by simpa using hp
+      cases k <;> first | rfl | (exfalso; revert hc; decide)
+  have := Wac.Lemmas.ParserBasic.delimited_nonempty h hs
+  simp_all
 
 /-- find the invariant of the current state -/
 syntax "inv_tac" : tactic
@@ -296,9 +345,11 @@ macro_rules
   | `(tactic| good_tac [$ts,*]) => `(tactic| repeat (first
       | assumption
       | exact good_ok (by inv_tac)
-      | exact good_err (lookaheadError_good (by inv_tac) _)
+      | exact good_err (lookaheadError_good (by inv_tac) _ (by simp [typePeeks, typeDeclPeeks, itemTypeDeclPeeks, interfaceItemPeeks, worldItemPeeks, typeStatementPeeks, statementPeeks, instantiationArgumentPeeks]))
+      | (exfalso; exact next_none_contra (by assumption) (by assumption))
+      | (exfalso; exact tuple_assert_contra (by assumption) (by assumption) (by assumption))
       | (focus (apply good_err; simp [GoodErr]; done))
-      | (apply good_err; simp only [GoodErr]; refine ⟨_, parseToken_slice ?_ (by assumption)⟩; assumption)
+      | (apply good_err; simp only [GoodErr]; refine ⟨_, (parseToken_slice ?_ (by assumption)).1⟩; assumption)
       | good_lemma
       $[| exact $ts _ (by inv_tac)]*
       | exact next_inv ‹_›
